@@ -295,6 +295,16 @@ fn c01_like(tier: Tier, oracles: Oracles, with_drop: bool) -> Vec<Scenario> {
         out.push(Scenario::new("kv-empty-m3", Cfg::default(), kv_base(None), Box::new(txs_of(&ops, 3, false, true)), 1, oracles));
         out.push(Scenario::new("kv-full1500-m2", Cfg::default(), kv_base(Some("x*1500")), Box::new(txs_of(&ops, 2, with_drop, true)), 2, oracles));
     }
+    // the kv driver at other page sizes (values scaled with the page, so the same split / merge /
+    // overflow thresholds are crossed)
+    for (ps, small, third, over) in [(4096u64, "v*8", "w*1200", "x*6000"), (1032, "v*8", "w*303", "x*1512"), (16384, "v*8", "w*4800", "x*24000")] {
+        if q && ps == 16384 {
+            continue;
+        }
+        let vals = [small, third, over];
+        let pops = kv_ops(&KV_KEYS, &vals);
+        out.push(Scenario::new(&format!("kv-full-p{}-m1", ps), Cfg { pagesize: ps, ..Cfg::default() }, kv_base(Some(third)), Box::new(txs_of(&pops, 1, with_drop, true)), if q { 2 } else { 3 }, oracles));
+    }
     // nest driver
     let nops = nest_ops();
     let nsmall = nest_ops_small();
